@@ -528,6 +528,18 @@ Proof.
   apply has_prefix_firstn.
 Qed.
 
+Lemma drop_blank_tab_suffix (r : bytes) : exists t, r = t ++ drop_blank_tab r.
+Proof.
+  induction r as [|b r [t IH]]; [exists []; reflexivity|]. cbn [drop_blank_tab].
+  destruct (Byte.eqb b x20 || Byte.eqb b x09); [exists (b :: t); cbn; f_equal; exact IH|exists []; reflexivity].
+Qed.
+Lemma has_prefix_trim_right_bt (s c : bytes) : has_prefix s c = true -> has_prefix (trim_right_bt s) c = true.
+Proof.
+  intros H. unfold trim_right_bt. destruct (drop_blank_tab_suffix (rev s)) as [t E].
+  apply (has_prefix_app_l _ (rev t)).
+  rewrite <- rev_app_distr, <- E, rev_involutive. exact H.
+Qed.
+
 (* go/parser contract: the composite literal is the one opened by the prefix ([]any{), its closing brace lies
    within the content or is the appended one, elements end after the opening brace *)
 Lemma slice_args_ok has_code content lbrace rbrace ends :
@@ -547,11 +559,14 @@ Proof.
   assert (T1 : (lbrace <= to1 <= rbrace - 1)%Z).
   { unfold to1. destruct (rbrace - 1 <? to0)%Z eqn:E; [lia|]. apply Z.ltb_ge in E. lia. }
   rewrite (zslice_some src to1 (rbrace - 1)%Z) by lia.
-  set (to2 := if has_code _ then (rbrace - 1)%Z else to1).
-  assert (T2 : (lbrace <= to2 <= rbrace - 1)%Z) by (unfold to2; destruct (has_code _); lia).
-  rewrite (zslice_some src lbrace to2) by lia.
-  eexists. split; [reflexivity|].
-  rewrite HL, Nat2Z.id. unfold src. apply prefix_of_appended. lia.
+  destruct (has_code _).
+  - rewrite (zslice_some src lbrace (rbrace - 1)%Z) by lia. cbn [option_map].
+    eexists. split; [reflexivity|].
+    eapply has_prefix_trim_right_bt.
+    rewrite HL, Nat2Z.id. unfold src. apply prefix_of_appended. lia.
+  - rewrite (zslice_some src lbrace to1) by lia.
+    eexists. split; [reflexivity|].
+    rewrite HL, Nat2Z.id. unfold src. apply prefix_of_appended. lia.
 Qed.
 
 (* go/parser contract for Func: the declaration found is the one that starts at `func ` right after the prefix,
